@@ -4,6 +4,7 @@ import GroupbyVerif.Bridge
 import GroupbyVerif.Lemmas.Fold
 import GroupbyVerif.Props.C04
 import GroupbyVerif.LoopBridge.NbReduce
+import GroupbyVerif.LoopBridge.Dot
 
 /-!
 # C20 — Stand-alone array helpers agree with their NumPy definitions
@@ -581,5 +582,49 @@ theorem source_nb_reduce_initial (k : Kind) (hk : k ≠ .b) (f : Val → Val →
 example :
     (Generated.Loops.nb_reduce .f (Generated.ReductionOps.max .f) 5 (arrOf [.nan, .num 3, .nan, .num 7, .num 5] .nan)
       true false .nan) = (.num 7, false) := by decide
+
+/-! ### `_nb_dot` (translated from `util.py` on every run) -/
+
+/-- **the matrix-vector helper is the ordinary product**: for a matrix given by its columns (equally long, integer-valued
+cells), a vector with one entry per column and a zero-initialised accumulator, the translated `_nb_dot` leaves in every
+row `r` the sum over the columns of `a[c][r] * b[c]`; no error is flagged -/
+theorem source_nb_dot_eq_product (k : Kind) (cols : List (List Int)) (b : List Int) (nrows : Nat)
+    (hcols : ∀ c ∈ cols, c.length = nrows) (hb : b.length = cols.length) (hne : cols ≠ []) :
+    let r := Generated.Loops.nb_dot k (cols.map (·.map Val.num)) b.length (arrOf (b.map Val.num) .nan) nrows
+      (fun _ => .num 0)
+    r.2 = false ∧ ∀ i : Nat, i < nrows →
+      r.1 (i : Int) = .num (((List.range cols.length).map fun c => (cols.getD c []).getD i 0 * b.getD c 0).sum) := by
+  intro r
+  obtain ⟨c0, cs, rfl⟩ := List.exists_cons_of_ne_nil hne
+  have h0 : ((List.map (fun x => List.map Val.num x) (c0 :: cs)).getD 0 []).length = nrows := by
+    simp [hcols c0 (List.mem_cons_self ..)]
+  have h := LoopBridge.nb_dot_eq k ((c0 :: cs).map (·.map Val.num)) (b.map Val.num) nrows (fun _ => .num 0) (by omega)
+  simp only [List.length_map] at h
+  refine ⟨h.1, fun i hi => ?_⟩
+  rw [h.2.1 i (by omega), hb]
+  have := LoopBridge.dotRow_num ((c0 :: cs).map (·.map Val.num)) (b.map Val.num) i 0 (c0 :: cs).length
+    (fun c => ((c0 :: cs).getD c []).getD i 0) (fun c => b.getD c 0)
+    (by
+      intro c hc
+      have hmem : (c0 :: cs).getD c [] ∈ (c0 :: cs) := by
+        rw [List.getD_eq_getElem?_getD, List.getElem?_eq_getElem hc]; exact List.getElem_mem hc
+      have hl := hcols _ hmem
+      simp only [LoopBridge.matAt, List.getD_eq_getElem?_getD, List.getElem?_map, List.getElem?_eq_getElem hc,
+        Option.map_some, Option.getD_some]
+      rw [List.getElem?_eq_getElem (by
+        rw [List.getD_eq_getElem?_getD, List.getElem?_eq_getElem hc] at hl; simp at hl; omega)]
+      simp)
+    (by
+      intro c hc
+      simp only [List.getD_eq_getElem?_getD, List.getElem?_map, List.getElem?_eq_getElem (show c < b.length by omega),
+        Option.map_some, Option.getD_some])
+  rw [this]
+  simp
+
+/-- non-vacuity: a 3 x 2 matrix (two columns) times a vector -/
+example :
+    let r := Generated.Loops.nb_dot .f [[.num 1, .num 2, .num 3], [.num 4, .num 5, .num 6]] 2 (arrOf [.num 10, .num 1] .nan) 3
+      (fun _ => .num 0)
+    ((List.range 3).map fun (i : Nat) => r.1 (i : Int)) = [.num 14, .num 25, .num 36] := by decide
 
 end GV.C20
